@@ -18,38 +18,6 @@ pub fn vx_check(c: bool) requires c { }
 #[verifier::external_body] pub fn vx_check(c: bool) ensures c { assert!(c) }
 //@endif
 
-// ---- It: a read-only view of the concatenation of at most two slices (stands for slice::Iter and Chain of two)
-pub struct It<'a, T> { pub a: &'a [T], pub b: Option<&'a [T]> }
-impl<'a, T> View for It<'a, T> {
-    type V = Seq<T>;
-    open spec fn view(&self) -> Seq<T> { match self.b { Some(b) => self.a@ + b@, None => self.a@ } }
-}
-impl<'a, T> It<'a, T> {
-    pub fn one(s: &'a [T]) -> (r: Self) ensures r@ == s@, r.b is None { It { a: s, b: None } }
-    // trusted: the lengths of two live slices of non-zero-sized elements cannot sum beyond usize::MAX
-    #[verifier::external_body]
-    pub fn len(&self) -> (r: usize) ensures r == self@.len() {
-        self.a.len() + match self.b { Some(b) => b.len(), None => 0 }
-    }
-    pub fn get(&self, k: usize) -> (r: &'a T) requires k < self@.len() ensures *r == self@[k as int] {
-        if k < self.a.len() { &self.a[k] } else { match self.b { Some(b) => &b[k - self.a.len()], None => { proof { assert(false); } &self.a[0] } } }
-    }
-    pub fn chain(self, o: It<'a, T>) -> (r: Self)
-        requires self.b is None, o.b is None,   // #subset: chains of more than two slices are outside the extractor's subset
-        ensures r@ == self@ + o@
-    { It { a: self.a, b: Some(o.a) } }
-    pub fn clone(&self) -> (r: Self) ensures r == *self { It { a: self.a, b: self.b } }
-    pub fn into_iter(self) -> (r: Self) ensures r == self { self }
-}
-pub trait VxIter<T> {
-    spec fn vxs(&self) -> Seq<T>;
-    fn vx_iter(&self) -> (r: It<'_, T>) ensures r@ == self.vxs(), r.b is None;
-}
-impl<T> VxIter<T> for Vec<T> {
-    open spec fn vxs(&self) -> Seq<T> { self@ }
-    fn vx_iter(&self) -> (r: It<'_, T>) { It::one(self.as_slice()) }
-}
-
 // ---- ArrayVec<T, N> (arrayvec): a sequence with a fixed capacity; `push` panics when full
 pub struct ArrayVec<T, const N: usize> { pub v: Vec<T> }
 impl<T, const N: usize> View for ArrayVec<T, N> { type V = Seq<T>; open spec fn view(&self) -> Seq<T> { self.v@ } }
@@ -68,34 +36,6 @@ impl<T, const N: usize> ArrayVec<T, N> {
 impl<T, const N: usize> VxIter<T> for ArrayVec<T, N> {
     open spec fn vxs(&self) -> Seq<T> { self@ }
     fn vx_iter(&self) -> (r: It<'_, T>) { It::one(self.v.as_slice()) }
-}
-pub trait VxIntoIt<'a, T> {
-    spec fn vxi(&self) -> Seq<T>;
-    fn vx_into_iter(self) -> (r: It<'a, T>) ensures r@ == self.vxi();
-}
-impl<'a, T> VxIntoIt<'a, T> for &'a Vec<T> {
-    open spec fn vxi(&self) -> Seq<T> { self@ }
-    fn vx_into_iter(self) -> (r: It<'a, T>) { It::one(self.as_slice()) }
-}
-impl<'a, T> VxIntoIt<'a, T> for It<'a, T> {
-    open spec fn vxi(&self) -> Seq<T> { self@ }
-    fn vx_into_iter(self) -> (r: It<'a, T>) { self }
-}
-
-// ---- Vec operations without a vstd specification
-pub open spec fn same_set<T>(a: Seq<T>, b: Seq<T>) -> bool { forall|x: T| a.contains(x) <==> b.contains(x) }
-pub trait VxVecExt<T>: Sized {
-    spec fn vxv(&self) -> Seq<T>;
-    fn vx_extend(&mut self, other: Vec<T>) ensures final(self).vxv() == old(self).vxv() + other@;
-    // slice::sort / Vec::dedup: assumed to keep the set of elements (order and multiplicity are unspecified)
-    fn vx_sort(&mut self) ensures same_set(final(self).vxv(), old(self).vxv());
-    fn vx_dedup(&mut self) ensures same_set(final(self).vxv(), old(self).vxv());
-}
-impl<T> VxVecExt<T> for Vec<T> {
-    open spec fn vxv(&self) -> Seq<T> { self@ }
-    #[verifier::external_body] fn vx_extend(&mut self, other: Vec<T>) { self.extend(other) }
-    #[verifier::external_body] fn vx_sort(&mut self) { unimplemented!() }
-    #[verifier::external_body] fn vx_dedup(&mut self) { unimplemented!() }
 }
 // ---- i8::abs (std): overflows only for i8::MIN
 pub trait VxAbs: Sized { spec fn vxa(&self) -> int; fn vx_abs(self) -> (r: Self) requires self.vxa() > -128 ensures r.vxa() == (if self.vxa() < 0 { -self.vxa() } else { self.vxa() }); }
